@@ -9,7 +9,7 @@ from onl.sim.resources.resource import Preempted
 PROPERTY = "C06"
 CLAUSES = ["C06.cap", "C06.noidle", "C06.order", "C06.preempt", "C06.harmless", "C06.noraise"]
 RULE = ("(B) every history of <= D operations (no two consecutive ticks while no request is outstanding) {request(priority, preempt), release, release twice, release of another "
-        "process's finished request, cancel, with-exit, tick} issued to 3 puppet processes, operations between two ticks "
+        "process's finished request, release of an own request that is still waiting, cancel, with-exit, tick} issued to 3 puppet processes, operations between two ticks "
         "happening inside one instant, legality decided by what each puppet has observed; (A) every population of N customer "
         "scripts (arrival, priority, preempt, patience, hold, reaction to preemption; optionally one customer interrupted from outside, leaving its with-block through the exception) written with `with res.request() as r: "
         "yield r | timeout`; on Resource, PriorityResource, PreemptiveResource with capacity 1-2(3); non-trivial = the queue "
@@ -47,7 +47,7 @@ def ops_menu(kind):
             for prio in (0, 1):
                 for pre in ((True, False) if kind == "preemptive" else (False,)):
                     m.append(("req", p, prio, pre))
-        m += [("rel", p), ("cancel", p), ("exit", p), ("relother", p), ("rel2", p)]
+        m += [("rel", p), ("cancel", p), ("exit", p), ("relother", p), ("rel2", p), ("relq", p)]
     return m
 
 
@@ -112,6 +112,10 @@ def exec_puppets(ch, cfg, res):
                 seen_grant[pid] = False
             elif op == "relother":
                 r.release(myreq[(pid + 1) % NP])
+            elif op == "relq":
+                # releasing a request that (as far as its owner knows) is still waiting: releasing a non-user is harmless,
+                # the request stays queued and is granted later like any other
+                r.release(myreq[pid])
     procs.extend(env.process(puppet(p)) for p in range(NP))
     env.run(until=0.5)
     batch = []
@@ -139,7 +143,7 @@ def exec_puppets(ch, cfg, res):
             return not outstanding[p]
         if op[0] in ("rel", "rel2"):
             return outstanding[p] and seen_grant[p]
-        if op[0] == "cancel":
+        if op[0] in ("cancel", "relq"):
             return outstanding[p] and not seen_grant[p]
         if op[0] == "exit":
             return outstanding[p]
@@ -220,6 +224,9 @@ def exec_puppets(ch, cfg, res):
                 res.ev("C06.harmless")
             elif op[0] == "relother":
                 ref.noop(now)
+                res.ev("C06.harmless")
+            elif op[0] == "relq":
+                ref.release(p, now)      # a no-op on the queue; frees the slot if it had been granted unnoticed
                 res.ev("C06.harmless")
             elif op[0] == "cancel":
                 ref.cancel(p, now)
